@@ -216,46 +216,86 @@ def r_bind(c):
 
 
 def r_sibling(c):
-    """the three index-lowering rules treat integer and slice indices alike"""
+    """the three index-lowering rules treat integer and slice indices alike.  What
+    one iteration of the per-index loop does for an integer index, and for a slice,
+    is tabulated by case-split evaluation (pta/symrun.py: the subscript appended,
+    the bindings stored, the output-axis counter advanced, for each truth value of
+    the tests on the index and its axis length) and the tables of the three rules
+    are compared.  How the ifs are arranged (if/elif chain, guard + continue, a
+    helper with an early return, an intermediate local) does not enter the table."""
     m = c.model
+    from pta import symrun
+    from pta.pat import alpha
     names = ["map_basic_index", "map_contiguous_advanced_index",
              "map_non_contiguous_advanced_index"]
-    arms = {}
+    tabs = {}
     for mn in names:
         r = m.resolve_method(TOIL, mn)
         if r is None:
             raise AnalysisError(f"anchor vanished: {mn}")
-        fd = r[1]
-        for iff in ast.walk(fd):
-            if isinstance(iff, ast.If) and isinstance(iff.test, ast.Call) \
-                    and ast.unparse(iff.test.func) == "isinstance" \
-                    and isinstance(iff.test.args[0], ast.Name) \
-                    and iff.test.args[0].id in _loop_targets(iff) \
-                    and iff.test.args[0].id == _chain_subject(iff) \
-                    and ast.unparse(iff.test.args[1]) in ("INT_CLASSES", "NormalizedSlice"):
-                ty = ast.unparse(iff.test.args[1])
-                iv = iff.test.args[0].id
-                from pta.model import _cp
-                body = _cp(iff.body)
-                for s_ in body:
-                    for nm in ast.walk(s_):
-                        if isinstance(nm, ast.Name) and nm.id == iv:
-                            nm.id = "<idx>"
-                arms.setdefault(ty, {})[mn] = (
-                    "\n".join(ast.unparse(s_) for s_ in body), iff)
+        fd = m.inlined(r[1])
+        loops = []
+        for l in ast.walk(fd):
+            if not isinstance(l, ast.For):
+                continue
+            tg = {n.id for n in ast.walk(l.target) if isinstance(n, ast.Name)}
+            subj = {t.args[0].id for t in ast.walk(l) if isinstance(t, ast.Call)
+                    and ast.unparse(t.func) == "isinstance" and len(t.args) == 2
+                    and isinstance(t.args[0], ast.Name) and t.args[0].id in tg
+                    and ast.unparse(t.args[1]) == "NormalizedSlice"}
+            if len(subj) == 1:
+                loops.append((l, subj.pop(), tg))
+        # the outermost such loop
+        loops = [x for x in loops if not any(
+            y[0] is not x[0] and any(z is x[0] for z in ast.walk(y[0])) for y in loops)]
+        if len(loops) != 1:
+            raise AnalysisError(f"index lowering: per-index loop of {mn} not found")
+        loop, iv, tg = loops[0]
+        for ty in ("INT_CLASSES", "NormalizedSlice"):
+            def decide(t, ty=ty, iv=iv, tg=tg):
+                if isinstance(t, ast.Call) and ast.unparse(t.func) == "isinstance" \
+                        and len(t.args) == 2 and isinstance(t.args[0], ast.Name):
+                    if t.args[0].id == iv:
+                        return ast.unparse(t.args[1]) == ty
+                    return None if t.args[0].id in tg else "skip"
+                if any(isinstance(x, ast.Name) and x.id == iv for x in ast.walk(t)):
+                    return None
+                return "skip"
+            try:
+                tab = symrun.table(loop.body, decide)
+            except AnalysisError as e:
+                raise AnalysisError(f"index lowering: {mn}: {e}")
+            # canonical text: cases and events, locals alpha-normalised
+            # (falling off the end of the loop body and `continue` are the same)
+            rows = sorted((sorted(f"{k}={v}" for k, v in cs),
+                           ev[:-1] if ev and ev[-1] == ("exit", "continue") else ev)
+                          for cs, ev in tab.items())
+            # locals of the rule renamed in order of first occurrence
+            import re
+            locs = {n.id for n in ast.walk(fd) if isinstance(n, ast.Name)
+                    and isinstance(n.ctx, ast.Store)}
+            order_ = {}
+
+            def ren(mo):
+                w = mo.group(0)
+                if w not in locs:
+                    return w
+                return order_.setdefault(w, f"v{len(order_)}")
+            txt = re.sub(r"[A-Za-z_][A-Za-z_0-9]*", ren, repr(rows))
+            tabs.setdefault(ty, {})[mn] = (txt, loop, rows)
     for ty in ("INT_CLASSES", "NormalizedSlice"):
-        impl = arms.get(ty, {})
-        if len(impl) < 3:
-            raise AnalysisError(f"index lowering: arm for {ty} found in {sorted(impl)} only")
+        impl = tabs.get(ty, {})
         ref_name = names[0]
         ref = impl[ref_name][0]
         for mn in names[1:]:
-            body, node = impl[mn]
-            c.check(body == ref, "R02-SIBLING", f"ToIndexLambdaMixin.{mn}",
-                    f"{ty}-index-handled-like-{ref_name}", m.loc(m.module_of(node), node),
-                    f"the three index-lowering rules are sibling implementations, but "
-                    f"{mn} handles {ty} indices differently from {ref_name} "
-                    f"(`{body[:60]}...` vs `{ref[:60]}...`)")
+            body, node, rows = impl[mn]
+            c.check(body == ref and bool(rows) and any(
+                e[0] == "call" for _cs, ev in rows for e in ev),
+                "R02-SIBLING", f"ToIndexLambdaMixin.{mn}",
+                f"{ty}-index-handled-like-{ref_name}", m.loc(m.module_of(node), node),
+                f"the three index-lowering rules are sibling implementations, but "
+                f"{mn} handles {ty} indices differently from {ref_name}: per case, "
+                f"`{str(rows)[:150]}...` vs `{str(impl[ref_name][2])[:150]}...`")
 
 
 def r_sibling_adv(c):
